@@ -306,9 +306,9 @@ class LibGraph:
         waits, wakes = [], []
         for n, f in self.fns.items():
             for i in f.all_insts():
-                if mm.is_futex(i, "wait"):
+                if mm.is_futex(i, mm.FUTEX_WAIT):
                     waits.append(i)
-                elif mm.is_futex(i, "wake"):
+                elif mm.is_futex(i, mm.FUTEX_WAKE):
                     wakes.append(i)
         return waits, wakes
 
